@@ -64,8 +64,13 @@ impl EqGadget<Fq> for ElementVar {
         //      return self == other
         // should_enforce = false
         //      return true
-        self.is_eq(other)?
-            .conditional_enforce_equal(&Boolean::constant(true), should_enforce)
+        match self.is_eq(other)? {
+            // Both operands are constants: the comparison is decided at synthesis time, and
+            // `Boolean::conditional_enforce_equal` on two constants ignores the condition.
+            Boolean::Constant(true) => Ok(()),
+            Boolean::Constant(false) => should_enforce.enforce_equal(&Boolean::constant(false)),
+            is_eq => is_eq.conditional_enforce_equal(&Boolean::constant(true), should_enforce),
+        }
     }
 
     fn conditional_enforce_not_equal(
@@ -73,8 +78,11 @@ impl EqGadget<Fq> for ElementVar {
         other: &Self,
         should_enforce: &Boolean<Fq>,
     ) -> Result<(), SynthesisError> {
-        self.is_eq(other)?
-            .conditional_enforce_equal(&Boolean::constant(false), should_enforce)
+        match self.is_eq(other)? {
+            Boolean::Constant(false) => Ok(()),
+            Boolean::Constant(true) => should_enforce.enforce_equal(&Boolean::constant(false)),
+            is_eq => is_eq.conditional_enforce_equal(&Boolean::constant(false), should_enforce),
+        }
     }
 }
 
